@@ -54,56 +54,60 @@ Proof. repeat split; vm_compute; reflexivity. Qed.
 
 (* for i ; do echo ; done *)
 Definition wit_for_semi : program := bare (CCompound (KFor w_i ForSemiDo (semi (simple [w_echo]))) []).
+(* V=$$x fi        -- POSIX: a command named fi, run with V set *)
+Definition w_fi := wd s_fi.
+Definition wit_name_after_assignment : program := bare (CSimple [w_var] [SWord w_fi]).
+
+Definition rejected_witness (p : program) : Prop :=
+  wf_words_posix p = true /\ faithful p = true /\ model_accepts p = false.
+
+Lemma wit_for_semi_rejected : rejected_witness wit_for_semi.
+Proof. repeat split; vm_compute; reflexivity. Qed.
+Lemma wit_name_after_assignment_rejected : rejected_witness wit_name_after_assignment.
+Proof. repeat split; vm_compute; reflexivity. Qed.
+
+(* which half is at fault *)
+Lemma grammar_at_fault :
+  shell_lex (tokens wit_for_semi) = Lexed (terms wit_for_semi) /\ lr_accepts (terms wit_for_semi) = false.
+Proof. split; vm_compute; reflexivity. Qed.
+Lemma lexer_at_fault :
+  lr_accepts (terms wit_name_after_assignment) = true /\
+  shell_lex (tokens wit_name_after_assignment) <> Lexed (terms wit_name_after_assignment).
+Proof. split; [vm_compute; reflexivity | vm_compute; discriminate]. Qed.
+
+(* the guard of the partial theorem excludes exactly these two for their own reason *)
+Lemma witnesses_outside_guard :
+  supported wit_for_semi = false /\ wf_words wit_for_semi = true /\
+  supported wit_name_after_assignment = true /\ wf_words wit_name_after_assignment = false.
+Proof. repeat split; vm_compute; reflexivity. Qed.
+
+Lemma full_refuted :
+  ~ (forall p : program, wf_words_posix p = true -> faithful p = true -> model_accepts p = true).
+Proof.
+  intro H. destruct wit_for_semi_rejected as (Hwf & Hf & Hrej).
+  rewrite (H _ Hwf Hf) in Hrej. discriminate.
+Qed.
+
+(* ---- the four witnesses of the pinned tree, repaired in /repo by ad7956e and ce2c6a1:
+   now inside the guard and accepted ---- *)
 (* { case x in esac } *)
-Definition wit_after_esac : program :=
+Definition was_after_esac : program :=
   bare (CCompound (KBrace (bare (CCompound (KCase w_x CINil) []))) []).
 (* case x in esac | { echo ; } *)
-Definition wit_pipe_after_case : program :=
+Definition was_pipe_after_case : program :=
   CL (QOne (AOne false (PPipe (PCmd (CCompound (KCase w_x CINil) []))
                               (CCompound (KBrace (semi (simple [w_echo]))) [])))) None.
 (* case x in a ) echo ;; esac ; ( { echo ; } ) *)
-Definition wit_paren_after_case : program :=
+Definition was_paren_after_case : program :=
   CL (QSeq (one (CCompound (KCase w_x (CICons false w_a [] (BSome (bare (simple [w_echo]))) CINil)) []))
            SepSemi
            (AOne false (PCmd (CCompound (KSubshell (bare (CCompound (KBrace (semi (simple [w_echo]))) []))) []))))
      None.
 (* > out echo esac *)
-Definition wit_initial_counters : program :=
+Definition was_initial_counters : program :=
   bare (CSimple [] [SRedir (mkRedir None RGt w_out); SWord w_echo; SWord w_esac]).
 
-Definition rejected_witness (p : program) : Prop :=
-  wf_words p = true /\ faithful p = true /\ model_accepts p = false.
-
-Lemma wit_for_semi_rejected : rejected_witness wit_for_semi.
-Proof. repeat split; vm_compute; reflexivity. Qed.
-Lemma wit_after_esac_rejected : rejected_witness wit_after_esac.
-Proof. repeat split; vm_compute; reflexivity. Qed.
-Lemma wit_pipe_after_case_rejected : rejected_witness wit_pipe_after_case.
-Proof. repeat split; vm_compute; reflexivity. Qed.
-Lemma wit_paren_after_case_rejected : rejected_witness wit_paren_after_case.
-Proof. repeat split; vm_compute; reflexivity. Qed.
-Lemma wit_initial_counters_rejected : rejected_witness wit_initial_counters.
-Proof. repeat split; vm_compute; reflexivity. Qed.
-
-(* in four of the five the grammar is innocent: the intended terminal string is accepted
-   by the tables, the lexer produces a different one *)
-Lemma lexer_at_fault :
-  forall p, In p [wit_after_esac; wit_pipe_after_case; wit_paren_after_case; wit_initial_counters] ->
-  lr_accepts (terms p) = true /\ shell_lex (tokens p) <> Lexed (terms p).
-Proof.
-  intros p Hin. simpl in Hin.
-  repeat (destruct Hin as [<- | Hin]; [split; [vm_compute; reflexivity | vm_compute; discriminate] |]).
-  destruct Hin.
-Qed.
-
-(* in the first the lexer is innocent and shell.y lacks the production *)
-Lemma grammar_at_fault :
-  shell_lex (tokens wit_for_semi) = Lexed (terms wit_for_semi) /\ lr_accepts (terms wit_for_semi) = false.
-Proof. split; vm_compute; reflexivity. Qed.
-
-Lemma full_refuted :
-  ~ (forall p : program, wf_words p = true -> faithful p = true -> model_accepts p = true).
-Proof.
-  intro H. destruct wit_after_esac_rejected as (Hwf & Hf & Hrej).
-  rewrite (H _ Hwf Hf) in Hrej. discriminate.
-Qed.
+Lemma repaired_accepted :
+  forallb (fun p => wf_words p && supported p && model_accepts p)
+          [was_after_esac; was_pipe_after_case; was_paren_after_case; was_initial_counters] = true.
+Proof. vm_compute. reflexivity. Qed.
